@@ -188,6 +188,19 @@ func genC08(t *rapid.T) C08Case {
 		c.Asms[i].Bad = true
 		lab["file-format-cannot-process"] = true
 	}
+	if (c.Mode == "format" || c.Mode == "format-check") && n >= 2 && rapid.IntRange(0, 3).Draw(t, "unclosed") == 0 {
+		// a file that ends inside a block it never closes: format lays it out all the same, and the depth it ends at
+		// is nothing the next file may inherit
+		i := rapid.IntRange(0, n-1).Draw(t, "unclosedfile")
+		if !c.Asms[i].Bad {
+			if rapid.Bool().Draw(t, "unclosedcmd") {
+				c.Asms[i].Main = append(c.Asms[i].Main, ragen.Line{K: ragen.KCStart, Cmd: "unix"}, ragen.Line{K: ragen.KEntry, T: "ls"})
+			} else {
+				c.Asms[i].Main = append(c.Asms[i].Main, ragen.Line{K: ragen.KAStart}, ragen.Line{K: ragen.KAStart}, ragen.Line{K: ragen.KEntry, T: "open"})
+			}
+			lab["file-ends-inside-an-unclosed-block"] = true
+		}
+	}
 	lab["mode:"+c.Mode] = true
 	lab[fmt.Sprintf("files:%d", n)] = true
 	c.Lab = labelsOf(lab)
